@@ -181,6 +181,8 @@ def gen_herd(rng, tier):
     out = rng.choice(["ok", "ok", "err", "mix"])
     if out != "ok":
         op += " out=%s" % out
+    if keys > 1 and rng.random() < 0.5:
+        op += " hmod=%d" % rng.choice([1, 1, 2])     # the keys of the round (and the ballast) collide in their hash
     ops = []
     if rng.random() < 0.3:             # ordinary requests around it: the herd instance is a separate one
         ops += ["arrive 1 key=1 inner=5:ok", "arrive 2 key=1 inner=0:ok", "poll 2"]
@@ -495,6 +497,10 @@ def gen(rng, tier):
         handle_drop()
         if rng.random() < 0.5:
             ops.append("settle")
+    # the key type's Hash is coarser than its Eq (`khash=<m>`: only key mod m is hashed; m=1: every key has the same hash):
+    # half of the cases with several keys, a few with one (inert there). Distinct keys that collide are distinct keys.
+    if rng.random() < (0.5 if nkeys > 1 else 0.1):
+        header += " khash=%d" % rng.choice([1, 1, 2])
     return {"header": header, "ops": ops}
 
 
@@ -521,6 +527,39 @@ def _keys(case, meta=None):
         if w[0] == "#ondrop" and w[1] in keys:
             keys[w[2]] = keys[w[1]]
     return keys
+
+
+def _khash(case):
+    """`khash=<m>` of the case header: the key type hashes only key mod m (0: the whole key)"""
+    try:
+        return int(kvs(case.get("header", "")).get("khash", "0"))
+    except ValueError:
+        return 0
+
+
+def _collision(case, key, cur):
+    """the (service, key) entries of `cur` (keys with a call in flight) that differ from `key` but have its hash on
+    its service — keys the in-flight table must tell apart by `Eq`"""
+    m = _khash(case)
+    if not m or key is None:
+        return []
+    raw, _, sv = key.partition("@")
+    out = []
+    for k2 in cur:
+        r2, _, s2 = k2.partition("@")
+        if k2 != key and s2 == sv and raw.isdigit() and r2.isdigit() and int(raw) % m == int(r2) % m:
+            out.append(k2)
+    return out
+
+
+def _collision_note(case, key, cur):
+    col = _collision(case, key, cur)
+    if not col:
+        return ""
+    k2 = col[0]
+    return (" (call %s of caller %s for key %s is in flight; key %s is a DIFFERENT key — not equal under Eq — whose hash equals that of key %s "
+            "(khash=%d: the key type hashes only key mod %d): the request was treated as a request for key %s — coalescing is per key, "
+            "not per hash)" % (cur[k2][1], cur[k2][0], k2, key, k2, _khash(case), _khash(case), k2))
 
 
 def _callpanic(case):
@@ -701,8 +740,9 @@ def mon_share(case, lines, meta):
                 if c in cpanic and nx and nx[0] == "line" and nx[1][:3] == ["result", c, "panic"]:
                     own[c] = "panic"      # it led, and the inner service's call() panicked at once: nothing is in flight
                     continue
-                return ("caller %s arrived with no call in flight for key %s but did not start a fresh inner call%s"
-                        % (c, key, " (the key is still registered by a leader that has gone: it is never usable again)" if key in ever else ""))
+                return ("caller %s arrived with no call in flight for key %s but did not start a fresh inner call%s%s"
+                        % (c, key, " (the key is still registered by a leader that has gone: it is never usable again)" if key in ever else "",
+                           _collision_note(case, key, cur)))
         elif kind == "line" and w[0] == "inner_call":
             c, k = w[1], w[2]
             if c in joined:
@@ -850,6 +890,8 @@ def transitions(case, lines, meta=None):
                 tags.append("herd-lookup-exclusive" if int(kv.get("gate_timeouts", "0")) > 0 else "herd-lookup-shared")
             if int(kv.get("keys", "1")) > 1:
                 tags.append("herd-several-keys")
+                if kv.get("hmod", "0") != "0":
+                    tags.append("herd-colliding-keys")
     for _, m in (meta or []):
         if m.startswith("#finish "):
             kv = kvs(m)
@@ -880,6 +922,8 @@ def transitions(case, lines, meta=None):
     hdr = kvs(case.get("header", ""))
     if hdr.get("ctor", "builder") != "builder":
         tags.append("ctor-%s" % hdr["ctor"])
+    if _khash(case):
+        tags.append("khash")
     first = {}
     for o in case["ops"]:
         w = o.split()
@@ -912,10 +956,16 @@ def transitions(case, lines, meta=None):
                 tags.append("service-odd-from-layer-clone" if int(sv) % 2 else "service-even-from-layer")
             if any(k2 != key and k2.partition("@")[0] == raw for k2 in flying):
                 tags.append("other-service-leads-same-key")     # the same key is in flight on another service
+            if _collision(case, key, flying):
+                tags.append("lead-while-colliding-key-inflight")  # a DIFFERENT key with the same hash is in flight on this service
             flying[key] = w[1]
         elif w[0] == "inner_done":
+            if _collision(case, keys.get(w[1]), flying) and flying.get(keys.get(w[1])) == w[1]:
+                tags.append("finish-while-colliding-key-inflight")  # … and must stay in flight when this one is retired
             flying.pop(keys.get(w[1]), None)
         elif w[0] == "inner_drop":
+            if _collision(case, keys.get(w[1]), flying) and flying.get(keys.get(w[1])) == w[1]:
+                tags.append("finish-while-colliding-key-inflight")
             flying.pop(keys.get(w[1]), None)
             tags.append("leader-dropped-unwinding" if w[1] in unwinding_drops else "leader-dropped")
         elif w[0] == "result" and w[1] in refused and w[1] not in leaders and w[2] == refused[w[1]]:
@@ -985,13 +1035,14 @@ SPECS = {
                             "dropsvc-first", "dropsvc-idle", "dropsvc-inflight", "waiter-served-after-dropsvc",
                             "waiter-cancelled-after-dropsvc", "refused-after-dropsvc",
                             "arrival-during-leader-drop-joined", "ondrop-second-thread",
-                            "herd-run", "herd-gate-none", "herd-gate-clone", "herd-gate-hash", "herd-lookup-exclusive", "herd-several-keys",
+                            "herd-run", "herd-gate-none", "herd-gate-clone", "herd-gate-hash", "herd-lookup-exclusive", "herd-several-keys", "herd-colliding-keys",
                             "finish-run", "finish-gate-none", "finish-gate-drop", "finish-completion-exclusive", "finish-coalesced",
                             "via-template", "via-swap", "via-readyclone", "sole-handle-overlap",
                             "leader-panic-unwinding", "leader-panic-caught", "leader-dropped-unwinding", "error-cloned",
                             "ctor-new", "ctor-config", "ctor-confignew", "ctor-service",
                             "service-even-from-layer", "service-odd-from-layer-clone", "other-service-leads-same-key",
-                            "refused-readiness-error", "refused-notready", "readiness-failure-while-inflight", "ready-after-pending"]
+                            "refused-readiness-error", "refused-notready", "readiness-failure-while-inflight", "ready-after-pending",
+                            "khash", "lead-while-colliding-key-inflight", "finish-while-colliding-key-inflight"]
                            + (["leader-clone-panic"] if CLONE_PANIC else []),
         "canon": canon,
         "model_modules": ["TR.Model.Coalesce", "TR.Lemmas.Coalesce", "TR.Lemmas.CoalesceHandle", "TR.Lemmas.CoalesceHerd", "TR.Lemmas.CoalesceCaller", "TR.Lemmas.CoalesceServices", "TR.Lemmas.CoalesceUnwind", "TR.Lemmas.CoalesceOnce", "TR.Lemmas.CoalesceReady", "TR.Mutants.CoalesceCallPanicWedges"],
@@ -1019,6 +1070,8 @@ SPECS = {
                 "drops caused by a panicking owner (`drop c unwind=1`); in half of the cases 8 or 20% of the arrivals go through a handle whose "
                 "inner readiness fails or stays pending (`rdy=<script>`, per handle; more often while a leader has waiters in flight, then a "
                 "waiter is polled and the key requested again) and as many through a handle that is pending first; 25% of the callers look at a clone of their result (`eclone=1`); "
+                "in half of the cases with several keys (10% of the others) the key type's Hash is coarser than its Eq (header `khash=1|2`: only "
+                "key mod m is hashed, distinct keys in flight together collide; `hmod=` likewise for half of the several-key herd runs); "
                 "with VERIF_C11_CLONE_PANIC=1 8% of the requests yield a value whose Clone panics (open finding, off by default); "
                 "distinct = distinct implementation event log; non-trivial = some waiter resolved, or a leader was dropped or panicked",
         "trusted": ["tokio broadcast / parking_lot Mutex / unwinding semantics as transcribed in TR.Model.Coalesce (sampled by the correspondence check)",
@@ -1045,7 +1098,8 @@ SPECS = {
                       "caller_behaviour_irrelevant, unwinding_drop_is_a_drop, readiness_failure_changes_nothing, readiness_failure_leaves_table, "
                       "refused_arrivals_invisible, at_most_one_result, result_unique, "
                       "no_answer_while_pending_or_dropped, delivered_cancelled_exclusive, service_steps_are_independent, "
-                      "services_do_not_share, arrive_line_key}: for every operation sequence over any key space (all arrival, "
+                      "services_do_not_share, arrive_line_key, distinct_keys_independent, colliding_keys_do_not_share, "
+                      "colliding_key_survives_other_keys_end}: for every operation sequence over any key space (all arrival, "
                       "completion, cancellation instants, all poll orders, ok/err/panic/never, panics inside inner.call() as well as in its "
                       "future) at most one inner call per key is in flight in every prefix of the log; a key is registered exactly while a "
                       "leader of it is alive; a request that finds its key registered makes no inner call and resolves only with its own "
@@ -1061,6 +1115,9 @@ SPECS = {
                       "delivered and cancelled exclude each other for one inner call; a completing leader publishes exactly the value its "
                       "waiters then receive. Services built from one layer value are the same model over the key space (service, key): an "
                       "operation on one service leaves every table entry and all traffic of every other service unchanged. "
+                      "Distinct keys are independent whatever their hashes (the model's table is keyed by the key; for every hash function h "
+                      "and keys a ≠ b with h a = h b: a request for b arriving while a is in flight leads its own call, and the end of a's "
+                      "call leaves b registered). "
                       "All unconditional except that the three statements about an arrival assume a handle still exists. Proved by an inductive invariant over "
                       "the model; the model is tied to the real CoalesceLayer by line-for-line agreement of event logs on generated schedules.",
         "level_note": LEVEL_NOTE,
